@@ -298,15 +298,24 @@ fn chk_swap(x: u8) -> bool {
     let s = swap_inl(CW { p: 3, v: mk(x), q: 9, w: mk(x2) });
     p == mk(x2) && k == 5 && q == mk(x) && p2 == mk(x) && q2 == mk(x) && s.v == mk(x2) && s.w == mk(x) && s.p == 3 && s.q == 9
 }
+#[inline(never)]
+fn opaque(c: bool) -> bool { c }
+#[inline(never)]
+fn pick_a(b: Box<%(t)s>, c: bool, other: %(t)s) -> Box<%(t)s> { let v = if c { b.unbox() } else { other }; BoxTrait::new(v) }
+#[inline(never)]
+fn pick_b(b: Box<%(t)s>, c: bool, other: %(t)s) -> Box<%(t)s> { let v = if c { other } else { b.unbox() }; BoxTrait::new(v) }
+#[inline(never)]
+fn pick_m(b: Box<CW>, k: u8) -> Box<%(t)s> {
+    let v = match k %% 3 { 0 => b.unbox().v, 1 => b.unbox().w, _ => { let CW { p: _, v: _, q: _, w } = b.unbox(); w } };
+    BoxTrait::new(v)
+}
 fn chk_rebox(x: u8) -> bool {
     let x2 = x ^ 0x55;
-    let b = BoxTrait::new(mk(x));
-    let other = mk(x2);
-    let v = if x %% 2 == 0 { b.unbox() } else { other };
-    let nb = BoxTrait::new(v);
-    let w = if x %% 3 == 0 { other } else { b.unbox() };
-    let nb2 = BoxTrait::new(w);
-    nb.unbox() == (if x %% 2 == 0 { mk(x) } else { mk(x2) }) && nb2.unbox() == (if x %% 3 == 0 { mk(x2) } else { mk(x) })
+    let c = opaque(x %% 2 == 0);
+    let a = pick_a(BoxTrait::new(mk(x)), c, mk(x2)).unbox();
+    let b = pick_b(BoxTrait::new(mk(x)), c, mk(x2)).unbox();
+    let m = pick_m(BoxTrait::new(CW { p: 1, v: mk(x), q: 2, w: mk(x2) }), x).unbox();
+    a == (if c { mk(x) } else { mk(x2) }) && b == (if c { mk(x2) } else { mk(x) }) && m == (if x %% 3 == 0 { mk(x) } else { mk(x2) })
 }
 fn chk_call(x: u8) -> bool {
     let x2 = x ^ 0x55;
